@@ -148,6 +148,9 @@ def c19_4(ctx):
                 continue
             fn = m.functions.get(cn + ".parse")
             if fn is None:
+                r_ = ctx.repo.resolve_method(m.name, cn, "parse")  # inherited from a shared base class
+                fn = r_[1] if r_ else None
+            if fn is None:
                 continue
             n += 1
             ctx.count("table_entries")
